@@ -70,9 +70,9 @@ Theorem C07_debug_unguarded_is :
 Proof. exact debug_unguarded_is. Qed.
 Print Assumptions C07_debug_unguarded_is.
 
-(** the only cell whose guard is known to be insufficient is the reported
-    finding F-C07-1 (double-checked locking in ActionDiagnostic::begin_run_impl) *)
-Theorem C07_racy_reported_is :
-  racy_reported = [("celeritas/user/ActionDiagnostic.cc", "ActionDiagnostic::store_")%string].
+(** no cell is currently known to be insufficiently guarded (finding F-C07-1,
+    double-checked locking in ActionDiagnostic::begin_run_impl, was repaired
+    in /repo 63841d1) *)
+Theorem C07_racy_reported_is : racy_reported = [].
 Proof. exact racy_reported_is. Qed.
 Print Assumptions C07_racy_reported_is.
